@@ -232,7 +232,7 @@ pub fn mk_event(idx: usize, ts: u64, pay: &Pay) -> StreamEvent {
             data.insert(FIELD.to_string(), Value::Boolean(*b));
         }
     }
-    let mut e = StreamEvent::with_timestamp("T", data, SOURCE, ts);
+    let mut e = StreamEvent::with_timestamp(EVENT_TYPE, data, SOURCE, ts);
     e.id = format!("e{}", idx);
     e.metadata.sequence = idx as u64;
     e
@@ -241,6 +241,7 @@ pub fn mk_event(idx: usize, ts: u64, pay: &Pay) -> StreamEvent {
 // ------------------------------------------------------------------------------------------
 // exhaustive alphabets
 
+pub const EVENT_TYPE: &str = "T";
 pub const DURATIONS: [u64; 5] = [1, 2, 3, 5, 10];
 pub const CAPS_EXH: [usize; 3] = [1, 2, 100];
 
